@@ -107,6 +107,15 @@ pub fn run_scenario(sc: &Scenario, dir: &std::path::Path, background: bool) -> C
 	Ok(out)
 }
 
+/// Any scenario with the library's own worker threads: only its commits and reopens are kept
+/// (the workers drive the pipeline), `always_flush` per the selector.
+pub fn run_scenario_workers(sc: &Scenario, dir: &std::path::Path) -> CaseResult {
+	let mut sc = sc.clone();
+	sc.ops.retain(|o| matches!(o, Op::Commit(_) | Op::Reopen));
+	sc.cfg.always_flush = sc.ops.len() % 3 != 0;
+	run_scenario(&sc, dir, true)
+}
+
 fn run(ctx: &Ctx) {
 	let n = scaled(ctx, 8_000, 150_000);
 	if !ctx.run_prop("step", n, scenario(60, 40_000), |sc, dir| run_scenario(sc, dir, false)) {
